@@ -332,10 +332,21 @@ func mixQueue(capacity, prefill int) func() mixCont {
 	}
 }
 
-func mixDeque(capacity, prefill int) func() mixCont {
+func mixDeque(capacity, prefill int) func() mixCont { return mixDequeOpt(capacity, prefill, nil) }
+
+// mixDequeQuota: a deque with a soft quota / hard limit / burst credit tracker.
+// Its "capacity" is not defined by the statement (cap = -1: the Len-vs-capacity
+// oracle is off); only the fresh-call probe judges its blocked producers.
+func mixDequeQuota(soft, hard, prefill int) func() mixCont {
+	return mixDequeOpt(-1, prefill, &pubsub.QueueOptions{SoftQuota: soft, HardLimit: hard})
+}
+
+func mixDequeOpt(capacity, prefill int, qo *pubsub.QueueOptions) func() mixCont {
 	return func() mixCont {
 		var q *pubsub.Deque[int]
-		if capacity == 0 {
+		if qo != nil {
+			q = must(pubsub.NewDeque[int](pubsub.DequeOptions{QueueOptions: qo}))
+		} else if capacity == 0 {
 			q = pubsub.NewUnlimitedDeque[int]()
 		} else {
 			q = must(pubsub.NewDeque[int](pubsub.DequeOptions{Capacity: capacity}))
@@ -400,11 +411,11 @@ func mixed(mk func() mixCont, parked []string, ops [][]string) vs.Scenario {
 		errs := make([]error, len(parked))
 		lenAtQuiet, capacity := -1, 0
 		parkedAtQuiet := make([]bool, len(parked))
-		name := ""
+		name, probeBeat := "", ""
 		body := func() {
 			c := mk()
 			name, capacity = c.name, c.cap
-			fin := make(chan struct{}, len(parked)+len(ops))
+			fin := make(chan struct{}, 2*len(parked)+len(ops))
 			ctx, cancel := context.WithCancel(context.Background())
 			for i, p := range parked {
 				i, f := i, c.call(p)
@@ -429,8 +440,33 @@ func mixed(mk func() mixCont, parked []string, ops [][]string) vs.Scenario {
 			for i := range parked {
 				parkedAtQuiet[i] = !returned[i]
 			}
+			// probe: a FRESH call of the same blocking operation is made in this very
+			// state. If it completes while the old call stays parked, the old call's
+			// condition was satisfied at quiescence (this needs no notion of capacity).
+			probes := 0
+			probed := map[string]bool{}
+			for i, p := range parked {
+				if returned[i] || probed[p] || !(isConsumer(p) || isProducer(p)) {
+					continue
+				}
+				probed[p] = true
+				probes++
+				i, f := i, c.call(p)
+				go func() {
+					err := f(ctx, 90+i)
+					if err == nil && !returned[i] {
+						probeBeat = p
+					}
+					vs.Progress()
+					fin <- struct{}{}
+				}()
+				vs.Quiesce()
+				if probeBeat != "" {
+					break
+				}
+			}
 			c.closeFn()
-			for i := 0; i < len(parked)+len(ops); i++ {
+			for i := 0; i < len(parked)+len(ops)+probes; i++ {
 				<-fin
 			}
 			cancel()
@@ -448,10 +484,13 @@ func mixed(mk func() mixCont, parked []string, ops [][]string) vs.Scenario {
 					if isConsumer(p) && lenAtQuiet > 0 {
 						return "consumer-parked-while-nonempty/" + p, where + fmt.Sprintf(": at quiescence %s is still blocked although the container holds %d item(s)", p, lenAtQuiet)
 					}
-					if isProducer(p) && (capacity == 0 || lenAtQuiet < capacity) {
+					if isProducer(p) && capacity >= 0 && (capacity == 0 || lenAtQuiet < capacity) {
 						return "producer-parked-with-free-capacity/" + p, where + fmt.Sprintf(": at quiescence %s is still blocked although the container holds %d of %d item(s)", p, lenAtQuiet, capacity)
 					}
 				}
+			}
+			if probeBeat != "" {
+				return "parked-while-a-fresh-call-completes/" + probeBeat, where + fmt.Sprintf(": at quiescence a fresh %s completed at once while the earlier %s stayed blocked", probeBeat, probeBeat)
 			}
 			if t, d := endTag(e); t != "" {
 				return "not-released-by-close/" + t, where + ": " + d
@@ -516,6 +555,11 @@ func mixCases() []mixCase {
 		// (legitimately), consumers must be served
 		{d(1, 1), "d11", []string{"WaitPushBack"}, [][]string{{"ForcePushBack", "PopFront"}}, false},
 		{d(1, 0), "d10", []string{"WaitFront", "WaitBack"}, [][]string{{"ForcePushBack", "ForcePushFront"}}, false},
+		// quota deques: the soft quota moves while a producer is parked
+		{mixDequeQuota(2, 4, 2), "dq24", []string{"WaitPushBack"}, [][]string{{"PushBack", "PopFront"}}, false},
+		{mixDequeQuota(2, 4, 2), "dq24", []string{"WaitPushFront"}, [][]string{{"PushFront", "PopBack"}}, false},
+		{mixDequeQuota(1, 3, 1), "dq13", []string{"WaitPushBack", "WaitFront"}, [][]string{{"PushBack"}}, false},
+		{mixDequeQuota(2, 3, 2), "dq23", []string{"WaitPushBack", "WaitPushFront"}, [][]string{{"PushBack", "PopFront", "PopFront"}}, false},
 		{d(2, 2), "d22", []string{"WaitPushBack", "WaitPushBack", "WaitFront"}, [][]string{{"PopBack"}}, true},
 		{d(2, 0), "d20", []string{"WaitFront", "WaitBack", "IterToEnd"}, [][]string{{"PushBack"}, {"PushFront"}}, true},
 	}
